@@ -348,6 +348,10 @@ func (r *resolver) resolve(ctx context.Context, vk resolve.VersionKey, requireme
 
 			if id, ok := nodes[match.VersionKey]; ok {
 				// The version key is already in the graph, just add an edge.
+				// This artifact (classifier and type included) is now
+				// resolved too: a later requirement must agree with it.
+				concreteVersions[c] = id
+				resolvedPackages[c.packageKey] = true
 				if err := g.AddEdge(concreteVersions[cur.versionKey], id, d.Version, d.Type); err != nil {
 					return nil, false, err
 				}
